@@ -296,8 +296,13 @@ class Check:
         r = {"rule": name, "what": what, "instances": instances}
         if floor is not None:
             r["floor"] = floor
-            if instances < floor:
-                self.add(Finding(name, name + "::floor", "rule %s matched %d instances, fewer than the %d confirmed by hand: the rule no longer sees what it is about (fail closed)" % (name, instances, floor)))
+            # `floor` is the instance count confirmed on the reviewed tree.  Ordinary maintenance merges or splits a few
+            # instances (two error sites folded into one helper, a loop turned into an iterator chain), so the rule fails closed
+            # only when it sees clearly fewer instances than were reviewed: below 3/4 of the count (exactly, for counts up to 5)
+            eff = floor if floor <= 5 else -(-floor * 3 // 4)
+            r["fails_below"] = eff
+            if instances < eff:
+                self.add(Finding(name, name + "::floor", "rule %s matched %d instances, the reviewed tree has %d (fails below %d): the rule no longer sees what it is about (fail closed)" % (name, instances, floor, eff)))
         if obligations is not None:
             r["obligations"] = obligations
             r["discharged"] = discharged
